@@ -59,9 +59,12 @@ pub open spec fn inv(s: &Session<'_>) -> bool {
     // dirty discipline: a state labelled `Unchanged` under an id the store knows equals the stored record
     &&& (cell(s) matches Some(ServerState::Unchanged { state, .. }) ==>
             (spec_old_id(s.id) matches Some(i) ==> store_of(s).contains_key(i) && store_of(s)[i] =~= state@))
-    // a brand-new session has nothing stored yet, so an `Unchanged` state on it must be empty
-    &&& (cell(s) matches Some(ServerState::Unchanged { state, .. }) ==>
-            (s.id is NewlyGenerated ==> state@ =~= empty_kv()))
+    // a brand-new session has nothing stored yet: its state is never labelled `Unchanged`
+    // (once `sync` has created its record the id is an existing one)
+    &&& (s.id is NewlyGenerated ==> !(cell(s) matches Some(ServerState::Unchanged { .. })))
+    // `DoesNotExist` means what it says: the store has no record under the incoming id
+    &&& (cell(s) == Some(ServerState::DoesNotExist) ==>
+            (spec_old_id(s.id) matches Some(i) ==> !store_of(s).contains_key(i)))
 }
 
 /// two-state dirty discipline: a state still labelled `Unchanged` has unchanged contents
@@ -120,4 +123,59 @@ pub open spec fn frame_client_op(pre: &Session<'_>, post: &Session<'_>) -> bool 
     &&& post.config == pre.config
     &&& sv(post.store) == sv(pre.store)
     &&& sv_ttl(post.store) == sv_ttl(pre.store)
+}
+
+// ---- sync ------------------------------------------------------------------------------------
+pub open spec fn create_if_empty(s: &Session<'_>) -> bool {
+    (spec_old_id(s.id) is Some || s.client_state is Updated)
+    && s.config.state.server_state_creation == ServerStateCreation::NeverSkip
+}
+/// RNG assumption, used only as a hypothesis of the totality obligations: an id drawn during this request
+/// and not yet written by this session is not a key of the store.
+pub open spec fn fresh(s: &Session<'_>) -> bool {
+    (s.id is NewlyGenerated || s.id is ToBeRenamed) ==> !store_of(s).contains_key(spec_new_id(s.id))
+}
+/// errors that come from the session's own id book-keeping, not from a failing store
+pub open spec fn logic_error(e: SyncError) -> bool {
+    match e {
+        SyncError::CreateError(CreateError::DuplicateId(_)) => true,
+        SyncError::UpdateError(UpdateError::UnknownIdError(_)) => true,
+        SyncError::DeleteError(DeleteError::UnknownId(_)) => true,
+        SyncError::UpdateTtlError(UpdateTtlError::UnknownId(_)) => true,
+        SyncError::ChangeIdError(ChangeIdError::UnknownId(_)) => true,
+        SyncError::ChangeIdError(ChangeIdError::DuplicateId(_)) => true,
+        _ => false,
+    }
+}
+/// (a) what the store must hold under the session's (new) id after a successful sync
+pub open spec fn synced_new_id(pre: &Session<'_>, m2: Map<SessionId, KV>) -> bool {
+    let n = spec_new_id(pre.id);
+    match lview(pre) {
+        Some(kv) => m2.contains_key(n) && m2[n] =~= kv,
+        None => if cell(pre) == Some(ServerState::MarkedForDeletion) { !m2.contains_key(n) }
+                else { !m2.contains_key(n) || m2[n] =~= empty_kv() },
+    }
+}
+/// (b) after a rename nothing is left under the old id
+pub open spec fn synced_old_id(pre: &Session<'_>, m2: Map<SessionId, KV>) -> bool {
+    spec_old_id(pre.id) matches Some(o) ==> (o != spec_new_id(pre.id) ==> !m2.contains_key(o))
+}
+/// (c) every other record of the store is untouched
+pub open spec fn synced_frame(pre: &Session<'_>, m2: Map<SessionId, KV>) -> bool {
+    forall |k: SessionId| #![auto] (k != spec_new_id(pre.id) && Some(k) != spec_old_id(pre.id)) ==>
+        (m2.contains_key(k) == store_of(pre).contains_key(k)
+         && (m2.contains_key(k) ==> m2[k] == store_of(pre)[k]))
+}
+/// key/values of a logical view (an absent record holds none)
+pub open spec fn kvs(v: Option<KV>) -> KV { match v { Some(m) => m, None => empty_kv() } }
+/// the clean-up `sync` performs on the cell once the store is up to date
+pub open spec fn cell_after_sync(st: ServerState, ns: ServerState, fresh_ttl: Duration, invd: bool, cie: bool) -> bool {
+    match st {
+        ServerState::Changed { state } => ns == (ServerState::Unchanged { state, ttl: fresh_ttl }),
+        ServerState::Unchanged { state, ttl } => ns == st,
+        ServerState::MarkedForDeletion => ns == (if invd { ServerState::MarkedForDeletion } else { ServerState::DoesNotExist }),
+        ServerState::DoesNotExist =>
+            if cie { ns matches ServerState::Unchanged { state, ttl } && state@ =~= empty_kv() && ttl == fresh_ttl }
+            else { ns == ServerState::DoesNotExist },
+    }
 }
